@@ -17,7 +17,7 @@ tname=$(basename "$dest" .rs)
 mkdir -p "$(dirname "$dest")"; cp "$demo" "$dest"
 feat=""; grep -q -- "--features verif" "$OUT/demo_path.txt" && feat="--features verif"
 cargo test -q -p $pkg $feat --test "$tname" --offline >/tmp/mut/confirm.log 2>&1; r_clean=$?
-git apply "$OUT/patch.diff" 2>/dev/null || git apply --3way "$OUT/patch.diff" >/dev/null 2>&1 || { echo "patch does not apply"; exit 2; }
+git apply "$OUT/patch.diff" 2>/dev/null || { git apply --3way "$OUT/patch.diff" >/dev/null 2>&1 && [ -z "$(git diff --name-only --diff-filter=U)" ]; } || { git reset -q --hard HEAD; echo "patch does not apply"; exit 2; }
 git reset -q 2>/dev/null
 cargo test -q -p $pkg $feat --test "$tname" --offline >>/tmp/mut/confirm.log 2>&1; r_mut=$?
 rm -f "$dest"
